@@ -8,6 +8,7 @@ import c04
 
 CONFIGS = ['prod']
 EXPLANATION = (
+    'E7: every constructor of the timestamp module that packs a caller-supplied Duration passes, before the packer, the admitting edge of a comparison of the whole seconds with a constant whose largest admitted value is exactly 2^32 - 1 (or a checked narrowing to u32). '
     'SEM (primary): HLCTimestamp::new interpreted with symbolic field bits gives the word layout (tiling, significance order), every accessor hands back ex'
     'actly its field bits, identities, the fraction round-trips at the division constant; E3 writer and reader by interpretation (printed value -> field bits; piece -> radix -> type -> field). St'
     'ructural fallback / remaining clauses: '
@@ -502,6 +503,81 @@ def check(ctx):
             o.rule = 'C10.E2'
     check_E3(ctx, facts)
     check_E4(ctx, facts)
+    check_constructor_range(ctx, facts)
     # E6: the text form is a column format only — it does not order like the timestamps it denotes, so no SQL statement may compare it
     import c17
     c17.check_B8(ctx, facts, rule='C10.E6', only_compare=True)
+
+
+def check_constructor_range(ctx, facts, rule='C10.E7'):
+    """E7: a constructor that packs a caller-supplied time refuses seconds the seconds field cannot hold.  The packer shifts the seconds
+    into the top 32 bits without looking at them: seconds at or above 2^32 are silently cut, the word then denotes an EARLIER time and
+    orders below older stamps.  Every function of the timestamp module that takes a `Duration` and hands it (or anything derived from
+    it) to the packer must therefore pass, before the packer is reached, the admitting edge of a comparison between the duration's whole
+    seconds and a constant, and the largest value that edge admits must be exactly 2^32 - 1 (the layout C10.SEM establishes).
+    (Round 6, C04f / C10f: TIMESTAMP_MAX raised to 34 bits "to match the documentation".)"""
+    cap = (1 << 32) - 1
+    pack_names = {T + 'pack', T + 'pack_parts'}
+    found = 0
+    for body in facts.bodies.values():
+        if body.crate != 'datacake_crdt' or body.d['promoted'] or body.kind not in ('method', 'fn') or body.cfg is None or not body.name.startswith(T):
+            continue
+        dur_params = [i for i in range(1, body.argc + 1) if body.local_ty(i) == 'core::time::Duration']
+        if not dur_params or body.name in pack_names:
+            continue
+        flow = Flow(body)
+        calls = list(body.calls())
+        packs = [(b, t) for b, t in calls if cname(t) in pack_names
+                 and any(op_local(a) is not None and set(flow.backward([op_local(a)])) & set(dur_params) for a in t['args'])]
+        if not packs:
+            continue
+        is_pub = True
+        found += 1
+        secs = set()
+        for b, t in calls:
+            if cname(t) == 'core::time::Duration::as_secs':
+                secs |= set(flow.forward([t['dest']['l']], stop=[0]))
+        admitted = []           # (block of the comparison, admitting target block, largest admitted value)
+        for bi, blk in enumerate(body.blocks):
+            cmp_of = {}
+            for s in blk['s']:
+                if s['k'] == 'assign' and s['rv']['k'] == 'bin' and s['rv']['op'] in ('Le', 'Lt', 'Gt', 'Ge') and not s['lhs']['p']:
+                    a, b_ = s['rv']['a'], s['rv']['b']
+                    ca, cb = op_const(a), op_const(b_)
+                    la, lb = op_local(a), op_local(b_)
+                    op = s['rv']['op']
+                    if cb is not None and 'val' in cb and la in secs:
+                        cmp_of[s['lhs']['l']] = (op, int(cb['val']))
+                    elif ca is not None and 'val' in ca and lb in secs:
+                        cmp_of[s['lhs']['l']] = ({'Le': 'Ge', 'Lt': 'Gt', 'Gt': 'Lt', 'Ge': 'Le'}[op], int(ca['val']))
+            t = blk['t']
+            if t['k'] == 'switch' and op_local(t['discr']) in cmp_of:
+                op, c = cmp_of[op_local(t['discr'])]
+                false_t = [tb for v, tb in t['targets'] if str(v) == '0']
+                true_t = t['otherwise']
+                if op in ('Le', 'Lt'):       # secs <= c / secs < c  true -> admitted
+                    admitted.append((bi, true_t, c if op == 'Le' else c - 1))
+                elif false_t:                # secs > c / secs >= c  false -> admitted
+                    admitted.append((bi, false_t[0], c if op == 'Gt' else c - 1))
+        good = False
+        why = 'the seconds of the supplied duration are not compared with a constant before the packer is reached'
+        # a checked narrowing of the seconds to 32 bits (u32::try_from(secs) ...) is the same refusal
+        for b, t in calls:
+            n_ = cname(t) or ''
+            if ('try_from' in n_ or 'try_into' in n_) and any(g == 'u32' for g in (t.get('gargs') or [])) and any(op_local(a) in secs for a in t['args']):
+                if any(b == pb or b in body.dominators().get(pb, set()) for pb, _pt in packs):
+                    good = True
+        for pb, pt in packs:
+            doms = body.dominators().get(pb, set())
+            for cb_, adm, mx in admitted:
+                # the packer is reached only through the admitting edge: the admitting target dominates the packer's block and the
+                # refusing side cannot reach it
+                if adm == pb or adm in doms:
+                    if mx == cap:
+                        good = True
+                    else:
+                        why = ('the constructor admits seconds up to %d, the seconds field of the packed word holds at most %d: a larger value is cut by the shift, '
+                               'the stamp denotes an earlier time and orders below older stamps' % (mx, cap))
+        ctx.ob(rule, 'constructor-range|%s' % body.name.rsplit('::', 1)[-1], good, site(body, packs[0][1]['cs']),
+               'seconds above 2^32 - 1 are refused before the packer is reached' if good else why)
+    return found
